@@ -8,7 +8,9 @@ PROP = "C13"
 LEAN_MODULES = ["LunaVerif.Props.C13"]
 DRIVER = "Driver/C13.lean"
 REQUIRED_THEOREMS = ["ack_implies_delivered_or_repeat_partial", "nak_iff_cannot_take_partial", "fifo_inputs_legal",
-                     "first_iff_transfer_start_fails", "first_after_discarded_packet_fails", "ack_after_overflow_fails"]
+                     "overflow_sticky", "overflowed_packet_discarded", "overflowed_packet_naked",
+                     "transfer_active_only_on_accept", "first_after_zlp_marked",
+                     "first_after_discarded_packet_marked", "overflowed_packet_naked_then_retried"]
 RULE = ("cases = (max_packet_size, buffer_size) x consumer pattern x response delay x seed; a scripted host issues OUT "
         "transactions (sizes 0..max, biased to max-size packets followed by a ZLP), retries NAKed packets, repeats "
         "ACKed packets with the old toggle (lost handshake), sends CRC-corrupted packets, PINGs, traffic to other "
@@ -17,14 +19,14 @@ RULE = ("cases = (max_packet_size, buffer_size) x consumer pattern x response de
 ASSUMPTIONS = ["interface.rx has the shape USBDataPacketReceiver produces (exactly one of rx_complete/rx_invalid in the "
                "cycle valid falls; >= 4 cycles between packets; sizes <= max_packet_size)",
                "rx_ready_for_response follows rx_complete by >= 1 cycle (USBInterpacketTimer: 1 / 2 / 10 cycles)",
-               "tokenizer fields and rx_pid_toggle are stable from the data packet until the response request"]
-PARTIAL = ("cycle-level model co-simulated; theorems are proved on the endpoint's decision logic (ack/nak/commit/discard "
-           "equations and the overflow / toggle registers) with C18's queue refinement and C28's event theorem as black "
-           "boxes; out_stream_exact, last_iff_short_packet_end are covered by the monitor only; two confirmed defects are "
-           "recorded as known findings with _fails witnesses (first mark after max-size packet + ZLP; ACK of an "
-           "overflowed, discarded packet when the response delay exceeds the detector latency)")
-KNOWN_SIGS = {"out-first-missing-after-zlp": "F7", "out-acked-packet-discarded": "overflow cleared before response",
-              "out-first-wrong-after-discarded-packet": "transfer_active follows discarded packets"}
+               "tokenizer fields and rx_pid_toggle are stable from the data packet until the response request",
+               "every transaction starts with a token addressed to the device (tokenizer.new_token strobe) before its data"]
+PARTIAL = ("cycle-level model of the repaired endpoint co-simulated; theorems are proved on the endpoint's decision "
+           "logic (ack/nak/commit/discard equations, overflow, toggle and transfer_active registers) for all states and "
+           "inputs, with C18's queue refinement applicable by fifo_inputs_legal; out_stream_exact, "
+           "last_iff_short_packet_end and first_iff_transfer_start over whole histories are checked by the monitor on "
+           "the real gateware and on three kernel-evaluated model runs (the former counterexamples), not proved")
+KNOWN_SIGS = {}
 
 EP = 2
 CONFIGS = [(2, 3), (4, 7), (8, 8), (64, 127)]
@@ -96,7 +98,7 @@ def simulate(desc):
     ch = itf.clear_endpoint_halt_in
     ins = [itf.rx.valid, itf.rx.next, itf.rx.payload, itf.rx_complete, itf.rx_invalid, itf.rx_ready_for_response,
            itf.rx_pid_toggle, itf.tokenizer.endpoint, itf.tokenizer.is_out, itf.tokenizer.is_ping,
-           itf.tokenizer.ready_for_response, ch.enable, ch.direction, ch.number, d.stream.ready]
+           itf.tokenizer.ready_for_response, ch.enable, ch.direction, ch.number, d.stream.ready, itf.tokenizer.new_token]
     outs = [itf.handshakes_out.ack, itf.handshakes_out.nak, d.stream.valid, d.stream.payload, d.stream.first, d.stream.last]
     stim_in = desc.get("stimulus")
     stim, rows, log = [], [], []      # log: host-side record of transactions and responses
@@ -107,9 +109,9 @@ def simulate(desc):
 
     async def tb(ctx):
         async def cycle(vec):
-            """vec: the 13 model-level inputs (clear-halt as one bit)"""
-            v = list(vec)
-            full = v[:11] + [v[11], 0, EP] + [v[12]]
+            """vec: the 14 model-level inputs (clear-halt as one bit; new_token last, 0 when omitted)"""
+            v = (list(vec) + [0])[:14]
+            full = v[:11] + [v[11], 0, EP] + [v[12], v[13]]
             for sig, x in zip(ins, full):
                 ctx.set(sig, x)
             r = tuple(int(ctx.get(o)) for o in outs)
@@ -133,7 +135,7 @@ def simulate(desc):
         async def idle(n, **kw):
             for _ in range(n):
                 await cycle([0, 0, 0, 0, 0, kw.get("rxr", 0), pid[0], tok[0], tok[1], tok[2], kw.get("tokr", 0),
-                             kw.get("clr", 0), h.rdy()])
+                             kw.get("clr", 0), h.rdy(), kw.get("new", 0)])
 
         async def data_packet(payload, ok, dly):
             dense = rng.chance(40)
@@ -171,6 +173,8 @@ def simulate(desc):
                 while True:
                     tok[:] = [EP, 1, 0]
                     pid[0] = host_toggle
+                    await idle(1, new=1)
+                    await idle(rng.range(1, 3))
                     r = await data_packet(payload, not a.get("corrupt"), delay)
                     if r is None:
                         log.append({"k": "corrupt", "payload": payload, "at": len(stim)})
@@ -192,11 +196,14 @@ def simulate(desc):
                 # the host missed our ACK: same data, previous toggle
                 tok[:] = [EP, 1, 0]
                 pid[0] = host_toggle ^ 1
+                await idle(1, new=1)
+                await idle(rng.range(1, 3))
                 r = await data_packet(last_acked, True, delay)
                 log.append({"k": "repeat", "payload": last_acked, "ack": r[0], "nak": r[1], "at": len(stim)})
             elif a["t"] == "ping":
                 tok[:] = [EP, 0, 1]
-                await idle(rng.range(2, 4))
+                await idle(1, new=1)
+                await idle(rng.range(1, 3))
                 r = await cycle([0, 0, 0, 0, 0, 0, pid[0], tok[0], tok[1], tok[2], 1, 0, h.rdy()])
                 log.append({"k": "ping", "ack": r[0], "nak": r[1], "at": len(stim)})
             elif a["t"] == "other":
@@ -204,6 +211,8 @@ def simulate(desc):
                 if tok[0] == EP:
                     tok[0] = EP + 1
                 pid[0] = rng.below(2)
+                await idle(1, new=1)
+                await idle(rng.range(1, 3))
                 r = await data_packet([rng.below(256) for _ in range(rng.range(0, mps))], True, delay)
                 log.append({"k": "other", "ack": r[0], "nak": r[1], "at": len(stim)})
             elif a["t"] == "clear":
@@ -223,7 +232,7 @@ def derive_log(stim, rows, mps):
     data packets for this endpoint with their response."""
     log, cur, prev_valid, pend = [], [], 0, None
     for t, (v, r) in enumerate(zip(stim, rows)):
-        valid, nxt, payload, cok, cbad, rxr, pid, ep, io, ping, tokr, clr, rdy = v
+        valid, nxt, payload, cok, cbad, rxr, pid, ep, io, ping, tokr, clr, rdy = v[:13]
         if valid and nxt:
             cur.append(payload)
         if cok or cbad:            # the packet ends with its strobe (in the cycle valid falls)
@@ -367,5 +376,5 @@ def run_case(desc):
                            "delay=%s" % desc.get("delay")]
     return Case([EP, mps, buf], stim, rows, fails, tags, desc,
                 ["rx_valid", "rx_next", "rx_payload", "rx_complete", "rx_invalid", "rx_ready_for_response", "rx_pid_toggle",
-                 "tok_endpoint", "tok_is_out", "tok_is_ping", "tok_ready_for_response", "clear_halt", "ready"],
+                 "tok_endpoint", "tok_is_out", "tok_is_ping", "tok_ready_for_response", "clear_halt", "ready", "tok_new_token"],
                 ["ack", "nak", "valid", "payload", "first", "last"])
